@@ -473,6 +473,12 @@ def handler (spec : Bool) (name : String) : Option (List Arg → Res) :=
     | ty :: t :: p :: c => withTy ty fun ty => text t fun t => text p fun p => clockOf c fun c =>
         (match parseValue ty t p c with | .ok (v, reads) => .ok [.int v, .int reads] | .error e => .err e)
     | _ => .badOp
+  | "F.parse2" => some fun
+    | [ty, t, p, a1, a2, a3, a4, a5, a6, a7, b1, b2, b3, b4, b5, b6, b7] =>
+      withTy ty fun ty => text t fun t => text p fun p => clockOf [a1, a2, a3, a4, a5, a6, a7] fun _ =>
+        clockOf [b1, b2, b3, b4, b5, b6, b7] fun c =>
+        (match parseValue ty t p c with | .ok (v, reads) => .ok [.int v, .int reads] | .error e => .err e)
+    | _ => .badOp
   -- serde
   | "S.ser_str" => some fun
     | [ty, n] => withTy ty fun ty => recv ty n fun n =>
